@@ -91,9 +91,9 @@ def main(tier, args):
                    "that is not their last command (calls judged, storage adopted; later lines of the same segment then only prompt-judged)}, each either in its own segment followed by a real loop pass or glued to the previous "
                    "command's segment, on prefilled histories of length {0,1,20,21}; oracle = one prompt per command line, probe argv of the addressed entry or an error message when it does not "
                    "exist, listing and stored history equal to the most recent 20 stored lines, exit ends the session on the next loop pass, no crash / sanitizer report / exception / hang. "
-                   "(1c, engine H, navigation lane) sequences of <=%d commands from 38 (cd / ls / tree / pwd / help with relative, absolute, '.', '..', above-root, cyclic, deleted and function paths; bare directory names; function "
+                   "(1c, engine H, navigation lane) sequences of <=%d commands from 39 (cd / ls / tree / pwd / help with relative, absolute, '.', '..', above-root, cyclic, deleted and function paths; bare directory names; function "
                    "paths 'd/f x', '/p a', 'e/top/p b', '../p c'; unknown names; !!, !0, history) on a node tree with nested directories, a directory mounted below itself, the root mounted below, a deleted function node and a "
-                   "deleted directory node that are still mounted; oracle from a reference path model: a function path runs the probe once with the line's words, a path that does not resolve or addresses a deleted node "
+                   "deleted directory node that are still mounted, and two names that were mounted and unmounted again; oracle from a reference path model: a function path runs the probe once with the line's words, a path that does not resolve or addresses a deleted node "
                    "runs nothing and reports an error, cd / bare directory move the current directory (compared after every line, and through pwd's output), built-ins run no probe, one prompt per line, every line stored; "
                    "state adds the current directory. "
                    "(1d, engine I, tokenizer lane) every line of length <=%d over {p, a, SPACE, ', \", ;, !} + CR LF on a fresh session with a one-entry history: no crash / exception / hang, exactly one prompt; for lines "
